@@ -11,6 +11,16 @@ Emits Gen_C04.v with
                        transitively by name inside pyxel/models) inside / outside the bracket, bare
                        np.random.seed / set_state calls, is the bracket given the `seed` argument
   src_seed_sites     : every np.random.seed / set_state call site in pyxel/ outside util/randomize.py
+  src_seed_truthiness: every truthiness test on a seed (`if seed`, `seed or x`, `x if seed else y`, `not seed`,
+                       and `value` inside a `*seed` setter) in the running modes, run.py, the configuration
+                       builders, util/randomize.py and pyxel/models/**
+  src_island_build   : how each branch of ArchipelagoDataTree._build iterates over the created islands
+                       (builtin map / executor.map / futures read in order -> BMap; as_completed -> BAsCompleted)
+Rows of src_links are (mode, entry, link, XId | XTruthy | XDrop): what the link does to the seed it is handed,
+for the constructor, the YAML builder, the attribute setter and the override path of every mode.
+Rows of src_seeded_models also carry the number of iterations over hash-ordered collections (set literals /
+set() / frozenset() / set comprehensions / `a.keys() & b` ...; in the function or in helpers followed by name)
+and the number of truthiness tests on the function's own `seed`.
 `analyse(repo)` returns the same facts as a Python dict (used by the harness to build programs).
 """
 from __future__ import annotations
@@ -182,35 +192,163 @@ def _link_all_calls(scope, callee, kw, accepted, where) -> bool:
     return all(_kw(c, kw) in accepted for c in cs)
 
 
-def _attr_roundtrip(tree, cls, attr, where) -> bool:
-    """__init__ stores the ctor argument `attr`, and `self.<attr>` reads it back."""
+XID, XTRUTHY, XDROP = "XId", "XTruthy", "XDrop"
+
+
+def _is_name(e, name) -> bool:
+    return isinstance(e, ast.Name) and e.id == name
+
+
+def _is_none(e) -> bool:
+    return isinstance(e, ast.Constant) and e.value is None
+
+
+def _plain(e, name) -> bool:
+    """`name`, or `int(name)` (the identity on every int seed)."""
+    if _is_name(e, name):
+        return True
+    return (isinstance(e, ast.Call) and isinstance(e.func, ast.Name) and e.func.id == "int" and len(e.args) == 1
+            and not e.keywords and _is_name(e.args[0], name))
+
+
+def _store_xfer(e, name, where) -> str:
+    """What `self._x = <e>` does to the seed held by `name`.  Unknown shapes fail closed."""
+    if _plain(e, name):
+        return XID
+    if _is_none(e):
+        return XDROP
+    if isinstance(e, ast.IfExp):
+        t = e.test
+        if _is_name(t, name) and _plain(e.body, name) and _is_none(e.orelse):
+            return XTRUTHY                                  # x if x else None
+        if isinstance(t, ast.UnaryOp) and isinstance(t.op, ast.Not) and _is_name(t.operand, name) \
+                and _is_none(e.body) and _plain(e.orelse, name):
+            return XTRUTHY                                  # None if not x else x
+        if isinstance(t, ast.Compare) and _is_name(t.left, name) and len(t.ops) == 1 and _is_none(t.comparators[0]):
+            if isinstance(t.ops[0], ast.IsNot) and _plain(e.body, name) and _is_none(e.orelse):
+                return XID                                  # x if x is not None else None
+            if isinstance(t.ops[0], ast.Is) and _is_none(e.body) and _plain(e.orelse, name):
+                return XID                                  # None if x is None else x
+    if isinstance(e, ast.BoolOp) and isinstance(e.op, ast.Or) and len(e.values) == 2 \
+            and _plain(e.values[0], name) and _is_none(e.values[1]):
+        return XTRUTHY                                      # x or None
+    raise TranslationError(f"{where}: the stored seed expression `{ast.unparse(e)}` has a shape the translator "
+                           f"does not know")
+
+
+def _class(tree, cls):
+    c = [n for n in ast.walk(tree) if isinstance(n, ast.ClassDef) and n.name == cls]
+    if len(c) != 1:
+        raise TranslationError(f"class {cls}: found {len(c)}")
+    return c[0]
+
+
+def _ctor_store(tree, cls, attr, where):
+    """(-> xfer of the store in __init__, name of the field it is stored in or None)."""
     init = find_func(tree, "__init__", cls)
     if attr not in [a.arg for a in init.args.args + init.args.kwonlyargs]:
-        return False
-    stored = None
+        return XDROP, None
+    found = []
     for n in ast.walk(init):
         tgt = None
         if isinstance(n, ast.Assign) and len(n.targets) == 1:
             tgt, v = n.targets[0], n.value
         elif isinstance(n, ast.AnnAssign) and n.value is not None:
             tgt, v = n.target, n.value
-        if tgt is not None and isinstance(tgt, ast.Attribute) and ast.unparse(tgt) in (f"self._{attr}", f"self.{attr}") \
-                and isinstance(v, ast.Name) and v.id == attr:
-            stored = ast.unparse(tgt)
-    if stored is None:
-        return False
-    if stored == f"self.{attr}":
-        return True
-    # property getter returns the private field
-    clsnode = [n for n in ast.walk(tree) if isinstance(n, ast.ClassDef) and n.name == cls][0]
-    for f in clsnode.body:
+        if tgt is not None and isinstance(tgt, ast.Attribute) and ast.unparse(tgt) in (f"self._{attr}", f"self.{attr}"):
+            found.append((ast.unparse(tgt), v))
+    if not found:
+        return XDROP, None
+    if len(found) != 1:
+        raise TranslationError(f"{where}: __init__ stores {attr} {len(found)} times")
+    field, v = found[0]
+    return _store_xfer(v, attr, f"{where}.__init__"), field
+
+
+def _getter(tree, cls, attr, field) -> str:
+    if field is None:
+        return XDROP
+    if field == f"self.{attr}":
+        return XID          # a plain public attribute
+    for f in _class(tree, cls).body:
         if isinstance(f, ast.FunctionDef) and f.name == attr and any(ast.unparse(d) == "property" for d in f.decorator_list):
             rets = [n for n in ast.walk(f) if isinstance(n, ast.Return)]
-            return len(rets) == 1 and rets[0].value is not None and ast.unparse(rets[0].value) == stored
-    return False
+            if len(rets) == 1 and rets[0].value is not None and ast.unparse(rets[0].value) == field:
+                return XID
+            return XDROP
+    return XDROP
 
 
-def links(repo: Path) -> list[tuple[str, str, bool]]:
+def _setter(tree, cls, attr, field, where):
+    """xfer of `@<attr>.setter`: optional `if ...: raise ...` guards, then one `self._<attr> = <expr>`.
+    None if the class has no such setter (a plain attribute: assignment stores the value itself)."""
+    fns = [f for f in _class(tree, cls).body if isinstance(f, ast.FunctionDef) and f.name == attr
+           and any(ast.unparse(d) == f"{attr}.setter" for d in f.decorator_list)]
+    if not fns:
+        return None
+    if len(fns) != 1:
+        raise TranslationError(f"{where}: {len(fns)} setters for {attr}")
+    fn = fns[0]
+    params = [a.arg for a in fn.args.args]
+    if len(params) != 2:
+        fail(fn, f"{where}: setter signature")
+    val = params[1]
+    body = [st for st in body_no_doc(fn) if not isinstance(st, ast.Pass)]
+    while body and isinstance(body[0], ast.If) and not body[0].orelse \
+            and all(isinstance(x, ast.Raise) for x in body[0].body):
+        body = body[1:]                                   # validation that only raises
+    if len(body) != 1:
+        fail(fn, f"{where}: setter body is not `[guards that raise]; self._{attr} = <expr>`")
+    st = body[0]
+    if isinstance(st, ast.Assign) and len(st.targets) == 1:
+        tgt, v = st.targets[0], st.value
+    elif isinstance(st, ast.AnnAssign) and st.value is not None:
+        tgt, v = st.target, st.value
+    else:
+        fail(st, f"{where}: setter does not end in an assignment")
+    if field is None or ast.unparse(tgt) != field:
+        return XDROP                                      # stores somewhere the getter does not read
+    return _store_xfer(v, val, f"{where} setter")
+
+
+def _builder(repo, fname, cls, where) -> str:
+    """configuration.to_<mode>(dct): ends in `return <cls>(**dct)` and never names the key 'pipeline_seed'."""
+    tree = parse(repo, "pyxel/configuration/configuration.py")
+    fn = find_func(tree, fname)
+    rets = [n for n in ast.walk(fn) if isinstance(n, ast.Return) and n.value is not None]
+    ok = bool(rets) and all(
+        isinstance(r.value, ast.Call) and ast.unparse(r.value.func).split(".")[-1] == cls and not r.value.args
+        and len(r.value.keywords) == 1 and r.value.keywords[0].arg is None for r in rets)
+    names_key = any(isinstance(n, ast.Constant) and n.value == "pipeline_seed" for n in ast.walk(fn))
+    if not ok:
+        raise TranslationError(f"{where}: {fname} no longer ends in `return {cls}(**dct)`")
+    return XDROP if names_key else XID
+
+
+def _override(repo) -> str:
+    """run.apply_overrides: a mode key ends in `setattr(obj, att, value)` with the loop's own value."""
+    tree = parse(repo, "pyxel/run.py")
+    fn = find_func(tree, "apply_overrides")
+    loops = [n for n in ast.walk(fn) if isinstance(n, ast.For) and ast.unparse(n.iter) == "overrides.items()"]
+    if len(loops) != 1 or not isinstance(loops[0].target, ast.Tuple) or len(loops[0].target.elts) != 2:
+        raise TranslationError("apply_overrides: expected one `for key, value in overrides.items()`")
+    val = ast.unparse(loops[0].target.elts[1])
+    sets = [c for c in ast.walk(loops[0]) if isinstance(c, ast.Call) and _callname(c) == "setattr"]
+    if not sets:
+        raise TranslationError("apply_overrides: no setattr call")
+    for n in ast.walk(loops[0]):   # the value must not be rebound inside the loop
+        if isinstance(n, (ast.Assign, ast.AugAssign, ast.AnnAssign)):
+            tg = n.targets if isinstance(n, ast.Assign) else [n.target]
+            if any(ast.unparse(t) == val for t in tg):
+                raise TranslationError("apply_overrides: the override value is rebound before it is stored")
+    return XID if all(len(c.args) == 3 and not c.keywords and ast.unparse(c.args[2]) == val for c in sets) else XDROP
+
+
+def _b(ok: bool) -> str:
+    return XID if ok else XDROP
+
+
+def links(repo: Path) -> list[tuple[str, str, str, str]]:
     out = []
     SELF = ("self.pipeline_seed", "self._pipeline_seed")
     ARG = ("pipeline_seed",)
@@ -229,28 +367,50 @@ def links(repo: Path) -> list[tuple[str, str, bool]]:
             for n in ast.walk(w):
                 covered.add(id(n))
     bracket_ok = all(id(c) in covered for c in inner)
+    for n in ast.walk(rp):     # pipeline_seed must reach the bracket as it came in
+        if isinstance(n, (ast.Assign, ast.AugAssign, ast.AnnAssign)):
+            tg = n.targets if isinstance(n, ast.Assign) else [n.target]
+            if any(ast.unparse(t) == "pipeline_seed" for t in tg):
+                raise TranslationError("run_pipeline rebinds pipeline_seed before the bracket")
     for m in ("exposure", "observation", "observation_dask", "calibration"):
-        out.append((m, "run_pipeline: whole run inside set_random_seed(pipeline_seed)", bracket_ok))
+        out.append((m, "", "run_pipeline: whole run inside set_random_seed(pipeline_seed)", _b(bracket_ok)))
 
-    out.append(("exposure", "Exposure stores pipeline_seed", _attr_roundtrip(ex, "Exposure", "pipeline_seed", "exposure")))
-    out.append(("exposure", "Exposure.run_exposure -> run_pipeline",
-                _link_all_calls(find_func(ex, "run_exposure", "Exposure"), "run_pipeline", "pipeline_seed", SELF,
-                                "Exposure.run_exposure")))
+    ovr = _override(repo)
+
+    def doors(modes, tree, cls, builder, where):
+        """constructor / YAML builder / setter / override rows of one running-mode class."""
+        cx, field = _ctor_store(tree, cls, "pipeline_seed", where)
+        gx = _getter(tree, cls, "pipeline_seed", field)
+        sx = _setter(tree, cls, "pipeline_seed", field, where)
+        bx = _builder(repo, builder, cls, where) if builder else None
+        for m in modes:
+            out.append((m, "ctor", f"{cls}.__init__ stores pipeline_seed", cx))
+            if bx is not None:
+                out.append((m, "yaml", f"configuration.{builder} hands the section to {cls}(**dct)", bx))
+                out.append((m, "yaml", f"{cls}.__init__ stores pipeline_seed", cx))
+            if sx is not None:
+                out.append((m, "setter", f"{cls}.pipeline_seed setter stores the value", sx))
+                out.append((m, "override", "run.apply_overrides: setattr(obj, att, value)", ovr))
+                out.append((m, "override", f"{cls}.pipeline_seed setter stores the value", sx))
+            out.append((m, "", f"{cls}.pipeline_seed reads the stored field", gx))
+
+    doors(("exposure",), ex, "Exposure", "to_exposure", "Exposure")
+    out.append(("exposure", "", "Exposure.run_exposure -> run_pipeline",
+                _b(_link_all_calls(find_func(ex, "run_exposure", "Exposure"), "run_pipeline", "pipeline_seed", SELF,
+                                   "Exposure.run_exposure"))))
 
     ob = parse(repo, "pyxel/observation/observation.py")
-    stored = _attr_roundtrip(ob, "Observation", "pipeline_seed", "observation")
-    out.append(("observation", "Observation stores pipeline_seed", stored))
-    out.append(("observation_dask", "Observation stores pipeline_seed", stored))
-    out.append(("observation", "Observation._run_single_pipeline -> run_pipeline",
-                _link_all_calls(find_func(ob, "_run_single_pipeline", "Observation"), "run_pipeline",
-                                "pipeline_seed", SELF, "Observation._run_single_pipeline")))
-    out.append(("observation_dask", "Observation.run_pipelines -> run_pipelines_with_dask",
-                _link_all_calls(find_func(ob, "run_pipelines", "Observation"), "run_pipelines_with_dask",
-                                "pipeline_seed", SELF, "Observation.run_pipelines")))
+    doors(("observation", "observation_dask"), ob, "Observation", "to_observation", "Observation")
+    out.append(("observation", "", "Observation._run_single_pipeline -> run_pipeline",
+                _b(_link_all_calls(find_func(ob, "_run_single_pipeline", "Observation"), "run_pipeline",
+                                   "pipeline_seed", SELF, "Observation._run_single_pipeline"))))
+    out.append(("observation_dask", "", "Observation.run_pipelines -> run_pipelines_with_dask",
+                _b(_link_all_calls(find_func(ob, "run_pipelines", "Observation"), "run_pipelines_with_dask",
+                                   "pipeline_seed", SELF, "Observation.run_pipelines"))))
     od = parse(repo, "pyxel/observation/observation_dask.py")
     rwd = find_func(od, "run_pipelines_with_dask")
-    out.append(("observation_dask", "run_pipelines_with_dask -> first _run_pipelines_array_to_datatree",
-                _link_all_calls(rwd, "_run_pipelines_array_to_datatree", "pipeline_seed", ARG, "run_pipelines_with_dask")))
+    out.append(("observation_dask", "", "run_pipelines_with_dask -> first _run_pipelines_array_to_datatree",
+                _b(_link_all_calls(rwd, "_run_pipelines_array_to_datatree", "pipeline_seed", ARG, "run_pipelines_with_dask"))))
     au = _calls(rwd, "apply_ufunc")
     if len(au) != 1:
         raise TranslationError("run_pipelines_with_dask: expected one apply_ufunc call")
@@ -262,36 +422,142 @@ def links(repo: Path) -> list[tuple[str, str, bool]]:
                 ok = True
     if not au[0].args or ast.unparse(au[0].args[0]) != "_run_pipelines_tuple_to_array":
         raise TranslationError("apply_ufunc no longer applies _run_pipelines_tuple_to_array")
-    out.append(("observation_dask", "run_pipelines_with_dask -> apply_ufunc kwargs", ok))
-    out.append(("observation_dask", "_run_pipelines_tuple_to_array -> _run_pipelines_array_to_datatree",
-                _link_all_calls(find_func(od, "_run_pipelines_tuple_to_array"), "_run_pipelines_array_to_datatree",
-                                "pipeline_seed", ARG, "_run_pipelines_tuple_to_array")))
-    out.append(("observation_dask", "_run_pipelines_array_to_datatree -> run_pipeline",
-                _link_all_calls(find_func(od, "_run_pipelines_array_to_datatree"), "run_pipeline",
-                                "pipeline_seed", ARG, "_run_pipelines_array_to_datatree")))
+    out.append(("observation_dask", "", "run_pipelines_with_dask -> apply_ufunc kwargs", _b(ok)))
+    out.append(("observation_dask", "", "_run_pipelines_tuple_to_array -> _run_pipelines_array_to_datatree",
+                _b(_link_all_calls(find_func(od, "_run_pipelines_tuple_to_array"), "_run_pipelines_array_to_datatree",
+                                   "pipeline_seed", ARG, "_run_pipelines_tuple_to_array"))))
+    out.append(("observation_dask", "", "_run_pipelines_array_to_datatree -> run_pipeline",
+                _b(_link_all_calls(find_func(od, "_run_pipelines_array_to_datatree"), "run_pipeline",
+                                   "pipeline_seed", ARG, "_run_pipelines_array_to_datatree"))))
 
     ca = parse(repo, "pyxel/calibration/calibration.py")
-    out.append(("calibration", "Calibration stores pipeline_seed",
-                _attr_roundtrip(ca, "Calibration", "pipeline_seed", "calibration")))
+    doors(("calibration",), ca, "Calibration", "to_calibration", "Calibration")
     rc = find_func(ca, "run_calibration", "Calibration")
-    out.append(("calibration", "Calibration.run_calibration -> ModelFittingDataTree",
-                _link_all_calls(rc, "ModelFittingDataTree", "pipeline_seed", SELF, "Calibration.run_calibration")))
+    out.append(("calibration", "", "Calibration.run_calibration -> ModelFittingDataTree",
+                _b(_link_all_calls(rc, "ModelFittingDataTree", "pipeline_seed", SELF, "Calibration.run_calibration"))))
     fd = parse(repo, "pyxel/calibration/fitting_datatree.py")
-    out.append(("calibration", "ModelFittingDataTree stores pipeline_seed",
-                _attr_roundtrip(fd, "ModelFittingDataTree", "pipeline_seed", "fitting")))
-    clsnode = [n for n in ast.walk(fd) if isinstance(n, ast.ClassDef) and n.name == "ModelFittingDataTree"]
-    if len(clsnode) != 1:
-        raise TranslationError("class ModelFittingDataTree not found")
-    out.append(("calibration", "ModelFittingDataTree.* -> run_pipeline",
-                _link_all_calls(clsnode[0], "run_pipeline", "pipeline_seed", SELF, "ModelFittingDataTree")))
+    fx, ffield = _ctor_store(fd, "ModelFittingDataTree", "pipeline_seed", "ModelFittingDataTree")
+    out.append(("calibration", "", "ModelFittingDataTree.__init__ stores pipeline_seed", fx))
+    out.append(("calibration", "", "ModelFittingDataTree.pipeline_seed reads the stored field",
+                _getter(fd, "ModelFittingDataTree", "pipeline_seed", ffield)))
+    clsnode = _class(fd, "ModelFittingDataTree")
+    out.append(("calibration", "", "ModelFittingDataTree.* -> run_pipeline",
+                _b(_link_all_calls(clsnode, "run_pipeline", "pipeline_seed", SELF, "ModelFittingDataTree"))))
     # optimiser seed (pygmo's own generator is not modelled; only the plumbing is read)
-    out.append(("calibration_pygmo", "run_calibration -> pg.set_global_rng_seed",
-                _link_all_calls(rc, "set_global_rng_seed", "seed", ("self.pygmo_seed", "self._pygmo_seed"),
-                                "Calibration.run_calibration")))
-    out.append(("calibration_pygmo", "run_calibration -> ArchipelagoDataTree",
-                _link_all_calls(rc, "ArchipelagoDataTree", "pygmo_seed", ("self.pygmo_seed", "self._pygmo_seed"),
-                                "Calibration.run_calibration")))
+    out.append(("calibration_pygmo", "", "run_calibration -> pg.set_global_rng_seed",
+                _b(_link_all_calls(rc, "set_global_rng_seed", "seed", ("self.pygmo_seed", "self._pygmo_seed"),
+                                   "Calibration.run_calibration"))))
+    out.append(("calibration_pygmo", "", "run_calibration -> ArchipelagoDataTree",
+                _b(_link_all_calls(rc, "ArchipelagoDataTree", "pygmo_seed", ("self.pygmo_seed", "self._pygmo_seed"),
+                                   "Calibration.run_calibration"))))
+    out.append(("calibration_pygmo", "", "ArchipelagoDataTree._build: island seeds drawn from default_rng(self.pygmo_seed), "
+                "create_island hands its seed to pg.island", _b(_island_seeds_ok(repo))))
     return out
+
+
+# ------------------------------------------------------------------ calibration: islands
+
+
+def _build_fn(repo):
+    tree = parse(repo, "pyxel/calibration/archipelago_datatree.py")
+    return find_func(tree, "_build", "ArchipelagoDataTree")
+
+
+def _island_seeds_ok(repo) -> bool:
+    fn = _build_fn(repo)
+    rng_names = set()
+    for n in ast.walk(fn):
+        tgt = v = None
+        if isinstance(n, ast.Assign) and len(n.targets) == 1:
+            tgt, v = n.targets[0], n.value
+        elif isinstance(n, ast.AnnAssign) and n.value is not None:
+            tgt, v = n.target, n.value
+        if isinstance(tgt, ast.Name) and isinstance(v, ast.Call) and _callname(v).endswith("default_rng"):
+            args = [ast.unparse(a) for a in v.args] + [ast.unparse(k.value) for k in v.keywords if k.arg == "seed"]
+            if args == ["self.pygmo_seed"]:
+                rng_names.add(tgt.id)
+    seeds_from_rng = False
+    for n in ast.walk(fn):
+        tgt = v = None
+        if isinstance(n, ast.Assign) and len(n.targets) == 1:
+            tgt, v = n.targets[0], n.value
+        elif isinstance(n, ast.AnnAssign) and n.value is not None:
+            tgt, v = n.target, n.value
+        if isinstance(tgt, ast.Name) and tgt.id == "seeds" and isinstance(v, ast.ListComp):
+            used = {x.value.id for x in ast.walk(v.elt) if isinstance(x, ast.Attribute) and isinstance(x.value, ast.Name)}
+            if used & rng_names:
+                seeds_from_rng = True
+    ci = [f for f in ast.walk(fn) if isinstance(f, ast.FunctionDef) and f.name == "create_island"]
+    if len(ci) != 1:
+        raise TranslationError("_build: expected one local create_island")
+    params = [a.arg for a in ci[0].args.args]
+    isl = [c for c in ast.walk(ci[0]) if isinstance(c, ast.Call) and _callname(c).split(".")[-1] == "island"]
+    hands = bool(params) and len(isl) == 1 and _kw(isl[0], "seed") == params[0]
+    return seeds_from_rng and hands
+
+
+def island_build(repo: Path) -> list[tuple[str, str]]:
+    """For the `if self.parallel:` / else branches of _build: how the loop that push_back()s the islands
+    iterates over them."""
+    fn = _build_fn(repo)
+    ifs = [n for n in fn.body if isinstance(n, ast.If) and ast.unparse(n.test) == "self.parallel"]
+    if len(ifs) != 1 or not ifs[0].orelse:
+        raise TranslationError("_build: expected one `if self.parallel: ... else: ...`")
+    pushes_outside = [c for st in fn.body if st is not ifs[0] for c in ast.walk(st)
+                      if isinstance(c, ast.Call) and _callname(c).endswith("push_back")]
+    if pushes_outside:
+        raise TranslationError("_build: push_back outside the parallel/sequential branches")
+
+    def kind_of(stmts, where):
+        env = {}
+        loops = []
+        for st in stmts:
+            for n in ast.walk(st):
+                if isinstance(n, ast.Assign) and len(n.targets) == 1 and isinstance(n.targets[0], ast.Name):
+                    env[n.targets[0].id] = n.value
+                elif isinstance(n, ast.AnnAssign) and n.value is not None and isinstance(n.target, ast.Name):
+                    env[n.target.id] = n.value
+                if isinstance(n, ast.For) and any(isinstance(c, ast.Call) and _callname(c).endswith("push_back")
+                                                  for c in ast.walk(n)):
+                    loops.append(n)
+        if len(loops) != 1 or not isinstance(loops[0].target, ast.Name):
+            raise TranslationError(f"_build ({where}): expected one loop that push_back()s the islands")
+        loop = loops[0]
+        var = loop.target.id
+        pushes = [c for c in ast.walk(loop) if isinstance(c, ast.Call) and _callname(c).endswith("push_back")]
+        if len(pushes) != 1 or len(pushes[0].args) != 1 or _callname(pushes[0]) != "self._pygmo_archi.push_back":
+            raise TranslationError(f"_build ({where}): expected one self._pygmo_archi.push_back(<island>)")
+        pushed = ast.unparse(pushes[0].args[0])
+        it = loop.iter
+        if isinstance(it, ast.Call) and _callname(it).split(".")[-1] == "tqdm" and it.args:
+            it = it.args[0]                     # progress bar around the iterable
+        seen = 0
+        while isinstance(it, ast.Name) and it.id in env and seen < 5:
+            it = env[it.id]
+            seen += 1
+        if not isinstance(it, ast.Call):
+            # a list of futures read in order
+            if isinstance(it, ast.ListComp) and pushed == f"{var}.result()" and _is_submit_comp(it):
+                return "BMap"
+            raise TranslationError(f"_build ({where}): iterable `{ast.unparse(it)}` has a shape the translator does not know")
+        nm = _callname(it)
+        last = nm.split(".")[-1]
+        if last == "map" and len(it.args) == 2 and ast.unparse(it.args[0]) == "create_island" \
+                and ast.unparse(it.args[1]) == "seeds" and pushed == var:
+            return "BMap"                       # builtin map / executor.map: results in submission order
+        if last == "as_completed":
+            return "BAsCompleted"
+        raise TranslationError(f"_build ({where}): iterable `{ast.unparse(it)}` has a shape the translator does not know")
+
+    return [("parallel", kind_of(ifs[0].body, "parallel")), ("sequential", kind_of(ifs[0].orelse, "sequential"))]
+
+
+def _is_submit_comp(lc: ast.ListComp) -> bool:
+    if len(lc.generators) != 1 or lc.generators[0].ifs or ast.unparse(lc.generators[0].iter) != "seeds":
+        return False
+    e = lc.elt
+    return isinstance(e, ast.Call) and _callname(e).split(".")[-1] == "submit" and len(e.args) == 2 \
+        and ast.unparse(e.args[0]) == "create_island" and ast.unparse(e.args[1]) == ast.unparse(lc.generators[0].target)
 
 
 def _with_seed_expr(w: ast.With):
@@ -319,6 +585,165 @@ def _functions(tree):
             for f in n.body:
                 if isinstance(f, (ast.FunctionDef, ast.AsyncFunctionDef)):
                     out.append((f"{n.name}.{f.name}", f, n.name))
+    return out
+
+
+SET_METHODS = ("union", "intersection", "difference", "symmetric_difference")
+KEYVIEW = ("keys", "items")
+ORDER_FREE = ("sorted", "len", "min", "max", "any", "all", "set", "frozenset", "sum", "bool")
+MATERIALISE = ("list", "tuple", "enumerate", "iter", "next", "reversed", "zip", "map", "filter", "array", "asarray",
+               "join", "fromiter", "concatenate", "stack", "vstack", "hstack", "dict", "OrderedDict", "deque")
+
+
+def _set_env(scope_nodes) -> set[str]:
+    """Names bound (by a plain assignment) to a set expression in the given statements - to a fixpoint."""
+    env: set[str] = set()
+    changed = True
+    while changed:
+        changed = False
+        for n in scope_nodes:
+            tgt = v = None
+            if isinstance(n, ast.Assign) and len(n.targets) == 1:
+                tgt, v = n.targets[0], n.value
+            elif isinstance(n, ast.AnnAssign) and n.value is not None:
+                tgt, v = n.target, n.value
+            if isinstance(tgt, ast.Name) and tgt.id not in env and _is_set_expr(v, env):
+                env.add(tgt.id)
+                changed = True
+    return env
+
+
+def _is_set_expr(e, env) -> bool:
+    """An expression whose iteration order is the hash order of its elements."""
+    if isinstance(e, (ast.Set, ast.SetComp)):
+        return True
+    if isinstance(e, ast.Name):
+        return e.id in env
+    if isinstance(e, ast.Call):
+        nm = _callname(e)
+        if nm in ("set", "frozenset"):
+            return True
+        last = nm.split(".")[-1]
+        if last in SET_METHODS and isinstance(e.func, ast.Attribute):
+            return True
+    if isinstance(e, ast.BinOp) and isinstance(e.op, (ast.BitAnd, ast.BitOr, ast.Sub, ast.BitXor)):
+        def keyview(x):
+            return isinstance(x, ast.Call) and isinstance(x.func, ast.Attribute) and x.func.attr in KEYVIEW and not x.args
+        return _is_set_expr(e.left, env) or _is_set_expr(e.right, env) or keyview(e.left) or keyview(e.right)
+    if isinstance(e, ast.IfExp):
+        return _is_set_expr(e.body, env) or _is_set_expr(e.orelse, env)
+    return False
+
+
+def unordered_sites(node, module_env) -> list[ast.AST]:
+    """Places in `node` where the hash order of a set becomes an ORDER: for-loops and comprehensions over a
+    set expression, list()/tuple()/enumerate()/iter()/... of one, `*set`, set.pop().  sorted()/len()/min()/
+    max()/membership tests do not count."""
+    env = set(module_env) | _set_env(list(ast.walk(node)))
+    out = []
+    for n in ast.walk(node):
+        if isinstance(n, (ast.For, ast.AsyncFor)) and _is_set_expr(n.iter, env):
+            out.append(n)
+        elif isinstance(n, ast.comprehension) and _is_set_expr(n.iter, env):
+            out.append(n)
+        elif isinstance(n, ast.Call):
+            last = _callname(n).split(".")[-1]
+            if last in MATERIALISE and any(_is_set_expr(a, env) for a in n.args):
+                out.append(n)
+            elif last == "pop" and isinstance(n.func, ast.Attribute) and _is_set_expr(n.func.value, env) and not n.args:
+                out.append(n)
+        elif isinstance(n, ast.Starred) and _is_set_expr(n.value, env):
+            out.append(n)
+    # a set comprehension / set(...) built FROM a set is order-free: drop comprehensions that feed a SetComp
+    drop = set()
+    for n in ast.walk(node):
+        if isinstance(n, ast.SetComp):
+            for g in n.generators:
+                drop.add(id(g))
+        if isinstance(n, ast.Call) and _callname(n).split(".")[-1] in ORDER_FREE:
+            for a in n.args:
+                if isinstance(a, (ast.GeneratorExp, ast.ListComp)):
+                    for g in a.generators:
+                        drop.add(id(g))
+    return [n for n in out if id(n) not in drop]
+
+
+SEED_NAME = ("seed", "pipeline_seed", "_pipeline_seed", "pygmo_seed", "_pygmo_seed")
+
+
+def _ident(e):
+    if isinstance(e, ast.Name):
+        return e.id
+    if isinstance(e, ast.Attribute):
+        return e.attr
+    return None
+
+
+def truthiness_sites(node, extra_names=()) -> list[ast.AST]:
+    """Expressions in `node` that test a seed for truthiness: the test of if / while / conditional expression /
+    assert / comprehension filter, an operand of and / or / not, the argument of bool()."""
+    names = set(SEED_NAME) | set(extra_names)
+
+    def is_seed(e):
+        return _ident(e) in names
+
+    out = []
+
+    def bool_ctx(e):
+        if isinstance(e, ast.BoolOp):
+            return          # its operands are visited as BoolOp operands below
+        if isinstance(e, ast.UnaryOp) and isinstance(e.op, ast.Not):
+            return          # visited as a Not operand below
+        if is_seed(e):
+            out.append(e)
+
+    for n in ast.walk(node):
+        if isinstance(n, (ast.If, ast.While, ast.IfExp)):
+            bool_ctx(n.test)
+        elif isinstance(n, ast.Assert):
+            bool_ctx(n.test)
+        elif isinstance(n, ast.comprehension):
+            for t in n.ifs:
+                bool_ctx(t)
+        elif isinstance(n, ast.BoolOp):
+            for v in n.values[:-1] if isinstance(n.op, ast.Or) else n.values:
+                if is_seed(v):
+                    out.append(v)
+            if isinstance(n.op, ast.Or) and is_seed(n.values[-1]):
+                pass        # `x or seed`: seed is returned, not tested
+        elif isinstance(n, ast.UnaryOp) and isinstance(n.op, ast.Not):
+            if is_seed(n.operand):
+                out.append(n.operand)
+        elif isinstance(n, ast.Call) and _callname(n) == "bool" and len(n.args) == 1 and is_seed(n.args[0]):
+            out.append(n.args[0])
+    return out
+
+
+TRUTHINESS_FILES = (
+    "pyxel/util/randomize.py", "pyxel/run.py", "pyxel/configuration/configuration.py",
+    "pyxel/exposure/exposure.py", "pyxel/observation/observation.py", "pyxel/observation/observation_dask.py",
+    "pyxel/calibration/calibration.py", "pyxel/calibration/fitting_datatree.py",
+    "pyxel/calibration/archipelago_datatree.py", "pyxel/calibration/user_defined.py",
+    "pyxel/pipelines/processor.py", "pyxel/pipelines/model_function.py",
+)
+
+
+def seed_truthiness(repo: Path):
+    out = []
+    files = [f for f in TRUTHINESS_FILES if (repo / f).exists()]
+    files += sorted(str(p.relative_to(repo)) for p in (repo / "pyxel" / "models").rglob("*.py"))
+    for rel in files:
+        text = (repo / rel).read_text()
+        if "seed" not in text:
+            continue
+        tree = parse(repo, rel)
+        for qn, node, cls in _functions(tree):
+            extra = ()
+            if qn.split(".")[-1].endswith("seed") and any("setter" in ast.unparse(d) for d in node.decorator_list):
+                extra = tuple(a.arg for a in node.args.args[1:])      # `value` of a *seed setter
+            n = len(truthiness_sites(node, extra))
+            if n:
+                out.append((f"{rel[:-3].replace('/', '.')}.{qn}", n))
     return out
 
 
@@ -373,6 +798,9 @@ def models(repo: Path):
 
     may_draw = closure(lambda n: bool(direct_draws(n)))
     may_reseed = closure(lambda n: bool(state_calls(n)))
+    module_sets = {rel: _set_env(list(tree.body)) for rel, tree in mods.items()}
+    node_rel = {id(node): rel for (rel, qn), (node, cls) in funcs.items()}
+    may_unordered = closure(lambda n: bool(unordered_sites(n, module_sets.get(node_rel.get(id(n)), ()))))
 
     rows = []
     for (rel, qn), (node, cls) in sorted(funcs.items()):
@@ -406,9 +834,13 @@ def models(repo: Path):
         bare = len(state_calls(node)) + sum(
             1 for c in ast.walk(node) if isinstance(c, ast.Call) and _np_random_attr(c) is None
             and _callname(c).split(".")[-1] in may_reseed)
+        unordered = len(unordered_sites(node, module_sets[rel])) + sum(
+            1 for c in ast.walk(node) if isinstance(c, ast.Call) and _np_random_attr(c) is None
+            and _callname(c).split(".")[-1] in may_unordered and _callname(c).split(".")[-1] != qn)
+        truthy = len(truthiness_sites(node))
         modname = rel[:-3].replace("/", ".")
         rows.append(dict(name=f"{modname}.{qn}", file=rel, func=qn, inside=n_in, outside=n_out, bare_seed=bare,
-                         bracket_seed=bracket_seed and n_brackets >= 1))
+                         bracket_seed=bracket_seed and n_brackets >= 1, unordered=unordered, seed_truthy=truthy))
     if not rows:
         raise TranslationError("no model function with a `seed` parameter found")
     return rows
@@ -462,7 +894,7 @@ def numba_sites(repo: Path):
 
 def analyse(repo: Path) -> dict:
     return dict(cfg=srs_cfg(repo), links=links(repo), models=models(repo), seed_sites=seed_sites(repo),
-                numba_sites=numba_sites(repo))
+                numba_sites=numba_sites(repo), seed_truthiness=seed_truthiness(repo), island_build=island_build(repo))
 
 
 def mangle(name: str) -> str:
@@ -486,12 +918,13 @@ def emit(a: dict) -> str:
                  "restore_on_normal := %s; restore_on_raise := %s |}." %
                  (cb(c["save_before_seed"]), cb(c["reseeds"]), cb(c["restore_on_normal"]), cb(c["restore_on_raise"])))
     lines.append("Definition src_links : list link := [")
-    lines.append(";\n".join(f"  ({cs(m)}, {cs(l)}, {cb(ok)})" for m, l, ok in a["links"]))
+    lines.append(";\n".join(f"  ({cs(m)}, {cs(e)}, {cs(l)}, {x})" for m, e, l, x in a["links"]))
     lines.append("].")
     for r in a["models"]:
         lines.append("Definition %s : model_row := {| m_name := %s; m_inside := %d; m_outside := %d; "
-                     "m_bare_seed := %d; m_bracket_seed := %s |}." %
-                     (mangle(r["name"]), cs(r["name"]), r["inside"], r["outside"], r["bare_seed"], cb(r["bracket_seed"])))
+                     "m_bare_seed := %d; m_bracket_seed := %s; m_unordered := %d; m_seed_truthy := %d |}." %
+                     (mangle(r["name"]), cs(r["name"]), r["inside"], r["outside"], r["bare_seed"], cb(r["bracket_seed"]),
+                      r.get("unordered", 0), r.get("seed_truthy", 0)))
     lines.append("Definition src_seeded_models : list model_row := [" +
                  "; ".join(mangle(r["name"]) for r in a["models"]) + "].")
     sites = a["seed_sites"]
@@ -500,6 +933,12 @@ def emit(a: dict) -> str:
     nsites = a.get("numba_sites", [])
     lines.append("Definition src_numba_sites : list seed_site := " +
                  ("[" + "; ".join(f"({cs(n)}, {k})" for n, k in nsites) + "]" if nsites else "nil") + ".")
+    tsites = a.get("seed_truthiness", [])
+    lines.append("Definition src_seed_truthiness : list seed_site := " +
+                 ("[" + "; ".join(f"({cs(n)}, {k})" for n, k in tsites) + "]" if tsites else "nil") + ".")
+    ib = a.get("island_build", [])
+    lines.append("Definition src_island_build : list build_row := " +
+                 ("[" + "; ".join(f"({cs(n)}, {k})" for n, k in ib) + "]" if ib else "nil") + ".")
     return "\n".join(lines) + "\n"
 
 
@@ -514,10 +953,12 @@ FALLBACK_ANALYSIS = None  # filled lazily from /repo's committed shape below
 def fallback() -> str:
     a = dict(
         cfg=dict(save_before_seed=True, reseeds=True, restore_on_normal=True, restore_on_raise=True),
-        links=[(m, "fallback", m != "calibration") for m in
-               ("exposure", "observation", "observation_dask", "calibration", "calibration_pygmo")],
+        links=[(m, e, "fallback", XID if m != FALLBACK_OPEN_MODE else XDROP)
+               for m in ("exposure", "observation", "observation_dask", "calibration", "calibration_pygmo")
+               for e in (("", "ctor", "yaml", "setter", "override") if m != "calibration_pygmo" else ("",))],
+        seed_truthiness=[], island_build=[("parallel", "BMap"), ("sequential", "BMap")],
         models=[dict(name=n, inside=1, outside=0, bare_seed=0, bracket_seed=True) for n in FALLBACK_MODELS],
-        seed_sites=[("pyxel.models.phasing.pulse_processing.pulse_processing", 1)],
+        seed_sites=[],
         numba_sites=[("pyxel.models.charge_transfer.emccd_poisson.poisson_register", 1),
                      ("pyxel.models.charge_transfer.emccd_poisson_cic.poisson_register", 2),
                      ("pyxel.models.charge_transfer.emccd_poisson_cic.multiplication_register_poisson", 1)],
@@ -525,6 +966,7 @@ def fallback() -> str:
     return emit(a)
 
 
+FALLBACK_OPEN_MODE = ""   # no mode drops its seed (C04-F1 repaired)
 FALLBACK_MODELS = [
     "pyxel.models.charge_collection.fixed_pattern_noise.fixed_pattern_noise",
     "pyxel.models.charge_generation.charge_deposition.charge_deposition",
